@@ -10,10 +10,10 @@
    invariant), [links_clean] (targets are stored cleaned, as Symlink stores them), the view root is a
    directory.  No hypothesis on permissions: any user.
 
-   Both budgets are 40 links.  What is NOT covered: the corner [C04_refuted_lstat_corner]; paths that are not of the
-   form "/c1/.../cn" with proper names (handled by Clean: C01_unclean); EvalSymlinks' error KIND on a loop. *)
+   Both budgets are 40 followed links; ELOOP is part of the agreement.  What is NOT covered: paths that are not of
+   the form "/c1/.../cn" with proper names (handled by Clean: C01_unclean); EvalSymlinks' error KIND on a loop. *)
 From Avfs Require Import Base PathModel PathSpec PathProofs PathCleanProofs PathIterProofs.
-From Avfs Require Import MemFS MemFile World Posix WalkBridge WalkSym WalkBudget WalkReadlink.
+From Avfs Require Import MemFS MemFile World Posix Inv WalkBridge WalkSym WalkBudget WalkReadlink WalkRel StepEq WalkInv.
 
 (* the search-permission test is the same function on both sides *)
 Theorem C04_perm_agree : forall (m : meta) (u : user),
@@ -42,10 +42,9 @@ Theorem C04_bridge_root_unsearchable :
   /\ kwalk (S fk) h (v_user v) kroot pm follow (v_root v) (c :: cs) cnt md = WErr EACCES.
 Proof. exact bridge_root_unsearchable. Qed.
 
-(* goal 2: with symbolic links; SlLstat <-> no-follow, SlStat / SlEval <-> follow.  Both budgets are 40: a walk the
-   kernel refuses with ELOOP is refused by the implementation, and conversely - with ONE exception, characterised
-   exactly by [lstat_corner]: in Lstat mode the implementation counts the final link before deciding not to follow it,
-   so after exactly 40 links crossed, Lstat of a link answers ELOOP where the kernel answers the link. *)
+(* goal 2: with symbolic links; SlLstat <-> no-follow, SlStat / SlEval <-> follow.  Both budgets are 40 links
+   FOLLOWED (a final link that is not followed does not count, on either side): ELOOP is part of the agreement.
+   The only premises besides the heap hypotheses are the two model-fuel ones. *)
 Theorem C04_resolve : forall (s : fsys) (sv : sview) (slm : slmode) (cs : list str),
   let v := sv_view sv in
   let h := f_heap s in
@@ -54,20 +53,8 @@ Theorem C04_resolve : forall (s : fsys) (sv : sview) (slm : slmode) (cs : list s
   let K := klookup s sv false (follow_of slm) (abs_path cs) in
   let r := search_node s v (abs_path cs) slm in
   K <> WErr EFUEL -> sr_err r <> EFuel ->
-  walk_rel h (v_user v) (v_root v) (precise_of slm) r K \/ lstat_corner h slm r K.
-Proof. exact sym_bridge_lookup. Qed.
-
-(* Stat, Open, ReadFile, ReadDir, Chmod, Truncate, Mkdir-below, EvalSymlinks, ... : no exception at all *)
-Theorem C04_resolve_follow : forall (s : fsys) (sv : sview) (slm : slmode) (cs : list str),
-  let v := sv_view sv in
-  let h := f_heap s in
-  v_os v = Linux -> walk_wf h -> links_clean h -> node_is_dir h (v_root v) = true ->
-  Forall good_comp cs -> slmode_eqb slm SlLstat = false ->
-  let K := klookup s sv false true (abs_path cs) in
-  let r := search_node s v (abs_path cs) slm in
-  K <> WErr EFUEL -> sr_err r <> EFuel ->
   walk_rel h (v_user v) (v_root v) (precise_of slm) r K.
-Proof. exact sym_bridge_lookup_follow. Qed.
+Proof. exact sym_bridge_lookup. Qed.
 
 (* ... the model-fuel hypotheses discharged by sizes: T bounds the components of the stored targets *)
 Theorem C04_resolve_sized : forall (s : fsys) (sv : sview) (slm : slmode) (cs : list str) (T : nat),
@@ -80,8 +67,40 @@ Theorem C04_resolve_sized : forall (s : fsys) (sv : sview) (slm : slmode) (cs : 
   length cs + 1 + MAXSYMLINKS * T <= WALK_FUEL ->
   let K := klookup s sv false (follow_of slm) (abs_path cs) in
   let r := search_node s v (abs_path cs) slm in
-  walk_rel h (v_user v) (v_root v) (precise_of slm) r K \/ lstat_corner h slm r K.
+  walk_rel h (v_user v) (v_root v) (precise_of slm) r K.
 Proof. exact sym_bridge_lookup_sized. Qed.
+
+(* ... on the states of C05: every world satisfying the invariant [Inv] (which every reachable world does: C05_reach),
+   any view, any user; [links_clean] is the one hypothesis that is not part of [Inv] *)
+Theorem C04_resolve_inv : forall (w : world) (vi : nat) (v : view) (cwdn : nat) (slm : slmode) (cs : list str),
+  Inv w -> nth_error (w_views w) vi = Some v -> links_clean (f_heap (w_fs w)) -> Forall good_comp cs ->
+  let s := w_fs w in
+  let sv := {| sv_view := v; sv_cwd := cwdn |} in
+  let K := klookup s sv false (follow_of slm) (abs_path cs) in
+  let r := search_node s v (abs_path cs) slm in
+  K <> WErr EFUEL -> sr_err r <> EFuel ->
+  walk_rel (f_heap s) (v_user v) (v_root v) (precise_of slm) r K.
+Proof. exact Inv_resolve. Qed.
+
+Theorem C04_inv_walk_wf : forall (h : heap), Inv_heap h -> walk_wf h /\ ptr_valid h.
+Proof. intros h I. split; [exact (Inv_heap_walk_wf h I)|exact (Inv_heap_ptr_valid h I)]. Qed.
+
+(* RELATIVE paths: the implementation resolves Abs(cwd, p) lexically from the root, the kernel resolves p from the
+   working-directory node.  They agree when the cwd string is a directory walk (link-free, searchable by the caller)
+   from the root to that node, for every lexically clean relative p (k leading "..", then proper names; or ".") *)
+Theorem C04_resolve_rel : forall (s : fsys) (sv : sview) (slm : slmode) (bs : list str) (x : str),
+  let v := sv_view sv in
+  let h := f_heap s in
+  let p := clean Linux x in
+  v_os v = Linux -> walk_wf h -> links_clean h -> node_is_dir h (v_root v) = true ->
+  kperm h (v_root v) 1 (v_user v) = true ->
+  v_cwd v = abs_path bs -> Forall good_comp bs -> dwalk h (v_user v) (v_root v) bs = Some (sv_cwd sv) ->
+  is_abs Linux p = false ->
+  let K := klookup s sv false (follow_of slm) p in
+  let r := search_node s v p slm in
+  K <> WErr EFUEL -> sr_err r <> EFuel ->
+  walk_rel h (v_user v) (v_root v) (precise_of slm) r K.
+Proof. exact sym_bridge_lookup_rel. Qed.
 
 (* the loop invariant itself, from any synchronised position of the two walks *)
 Theorem C04_resolve_at : forall (h : heap) (v : view),
@@ -101,20 +120,21 @@ Theorem C04_budget_40_41 :
                  (abs_path [WalkSymExamples.nm 0]) = WErr ELOOP).
 Proof. split; [exact WalkSymExamples.budget_agree_40|exact WalkSymExamples.budget_agree_41]. Qed.
 
-(* the exception of C04_resolve is real: Lstat of a link in a directory reached through exactly 40 links *)
-Theorem C04_refuted_lstat_corner :
+(* a link that is not followed does not count: Lstat of a link in a directory reached through exactly 40 links
+   answers the link, on both sides *)
+Theorem C04_lstat_after_40_links :
   (let r := search_node (WalkSymExamples.corner_fs 40) WalkSymExamples.adminv
                         (abs_path [WalkSymExamples.nm 0; WalkSymExamples.s_X]) SlLstat in
-   sr_err r = ETooManySymlinks /\ sr_child r = Some 42)
+   sr_err r = EFileExists /\ sr_child r = Some 42)
   /\ klookup (WalkSymExamples.corner_fs 40) (WalkSymExamples.sv_of WalkSymExamples.adminv) false false
              (abs_path [WalkSymExamples.nm 0; WalkSymExamples.s_X]) = WNode 41 LNorm WalkSymExamples.s_X 42.
-Proof. exact WalkSymExamples.lstat_corner_witness. Qed.
+Proof. exact WalkSymExamples.lstat_after_40_links. Qed.
 
-(* Readlink after Symlink(t, n) returns Clean(t) (ELOOP if the path to n already crossed 40 links) *)
+(* Readlink after Symlink(t, n) returns Clean(t) *)
 Theorem C04_readlink : forall (s s' : fsys) (v : view) (t n : str),
   v_os v = Linux -> ptr_valid (f_heap s) -> node_is_dir (f_heap s) (v_root v) = true ->
   symlink s v t n = (s', ROk) ->
-  readlink s' v n = RStr (clean Linux t) \/ readlink s' v n = RFail ETooManySymlinks.
+  readlink s' v n = RStr (clean Linux t).
 Proof. exact readlink_after_symlink. Qed.
 
 (* Lstat / Readlink / Remove / Rename / Link / Lchown / Symlink see their paths only through the SlLstat walk *)
@@ -142,7 +162,7 @@ Theorem C04_nofollow_modes : forall (w : world) (vi : nat) (p o n : str) (uid gi
   /\ wstep w (CChown vi p uid gid) = on_view w vi (fun v => lift w (chown_gen SlEval (w_fs w) v p uid gid)).
 Proof. exact nofollow_modes. Qed.
 
-(* ... and that walk hands back a final symbolic link itself (or ELOOP in the corner above) *)
+(* ... and that walk hands back a final symbolic link itself *)
 Theorem C04_nofollow_final : forall (s : fsys) (sv : sview) (cs : list str) (par n : nat) (name t : str) (m : meta),
   let v := sv_view sv in
   let h := f_heap s in
@@ -152,8 +172,7 @@ Theorem C04_nofollow_final : forall (s : fsys) (sv : sview) (cs : list str) (par
   klookup s sv false false (abs_path cs) = WNode par LNorm name n -> get h n = Some (NSym t m) ->
   sr_err (search_node s v (abs_path cs) SlLstat) <> EFuel ->
   let r := search_node s v (abs_path cs) SlLstat in
-  sr_child r = Some n /\ sr_parent r = Some par /\
-  ((sr_err r = EFileExists /\ pi_part (sr_pi r) = name) \/ sr_err r = ETooManySymlinks).
+  sr_err r = EFileExists /\ sr_child r = Some n /\ sr_parent r = Some par /\ pi_part (sr_pi r) = name.
 Proof. exact nofollow_final. Qed.
 
 (* termination: on EVERY heap (cyclic link graphs included) the splice loop ends within
